@@ -7,7 +7,8 @@ from vlib import sched
 
 POOL = [':nth-child(2n+1)', ':lang(en)', ':-soup-contains("x")', ':dir(ltr)', ':nth-of-type(odd)', 'div > p.a[t=x]',
         ':is(a, b):not(.c)', ':nth-last-child(2 of .k)', ':--alias', ':unknown', ':checked', 'p:has(> span)',
-        ':lang("de-*", fr)', ':-soup-contains-own(te)', ':nth-child(x)']
+        ':lang("de-*", fr)', ':-soup-contains-own(te)', ':nth-child(x)', ':-soup-contains("alpha", "beta", te)',
+        ':lang(de)', 'p:lang(fr, en):-soup-contains(y, x)']
 CUSTOM = {':--alias': 'p:nth-child(odd)'}
 MARKUP = '<html lang="en"><body><div><p class="a" t="x">te<span>x</span></p><p>y</p></div><input type="checkbox" checked></body></html>'
 
@@ -21,6 +22,7 @@ def run(ctx):
     mods = [cp, cm, ct, util, pretty, sv]
     found = sched.discover(mods)
     before = sched.globals_snapshot(mods)
+    cbefore = sched.class_snapshot(mods)
     ctx.functions.update(['soupsieve.compile', 'soupsieve.css_parser.CSSParser (tokenizer + parser)',
                           'soupsieve.css_parser.SelectorPattern / SpecialPseudoPattern instances in CSSParser.css_tokens',
                           'soupsieve.SoupSieve.select / match / filter / closest', 'soupsieve.css_match.CSSMatch'])
@@ -62,6 +64,8 @@ def run(ctx):
         traces[name], solo[name] = ev, res
     after = sched.globals_snapshot(mods)
     rebound = [k for k in before if after.get(k) != before[k]]
+    cafter = sched.class_snapshot(mods)
+    rebound += [k for k in cafter if cbefore.get(k) != cafter[k]]
     writers = {name: sum(1 for e in ev if e[0] == 'w') for name, ev in traces.items()}
     ctx.extra['shared_writes_per_call'] = {k: v for k, v in writers.items() if v}
     ctx.extra['module_globals_rebound_by_calls'] = rebound
@@ -113,8 +117,10 @@ def run(ctx):
     sys.setswitchinterval(1e-6)
     stress_div = None
     rounds = 150 if ctx.tier == 'quick' else 1500
+    if rebound or any(writers.values()):
+        rounds *= 10
     try:
-        cnames = [n for n in names if n.startswith('compile ')]
+        cnames = [n for n in names if n.startswith('compile ')] + [n for n in names if n.startswith('select ')]
         for k in range(rounds):
             a, b = cnames[k % len(cnames)], cnames[(k * 7 + 3) % len(cnames)]
             out = [None, None]
